@@ -145,7 +145,9 @@ def conc(x):
 
 
 def _wrap_result(r):
-    if isinstance(r, _np.ndarray) and r.dtype != object and r.dtype.kind in "fiub":
+    # float results become object arrays (proxies may be written into them later); integer/bool arrays are index or mask
+    # arrays and stay as numpy made them
+    if isinstance(r, _np.ndarray) and r.dtype != object and r.dtype.kind == "f":
         if r.ndim == 0:
             return r[()]
         return obj(r)
